@@ -8,6 +8,8 @@ import (
 	"io"
 	"os"
 	"path/filepath"
+	"strings"
+	"syscall"
 	"testing"
 
 	"dsim/core"
@@ -28,6 +30,9 @@ type C07Op struct {
 	C     []int  `json:"c,omitempty"`
 	Root  int    `json:"root,omitempty"`
 	Stale bool   `json:"stale,omitempty"`
+	// Fault: commit - the first write of a table file inside this commit fails with ENOSPC (the
+	// memtable cannot be persisted: the commit fails for a reason that is not a dangling reference)
+	Fault bool `json:"fault,omitempty"`
 }
 
 type C07Body struct {
@@ -82,9 +87,9 @@ func (C07) Generate(seed uint64, tier string) *core.Scenario {
 			root := newChunk()
 			if r.Chance(1, 3) && len(b.Chunks) > 1 {
 				root = r.Intn(len(b.Chunks))
-				b.Ops = append(b.Ops, C07Op{Kind: "commit", Root: root, Stale: r.Chance(1, 6)})
+				b.Ops = append(b.Ops, C07Op{Kind: "commit", Root: root, Stale: r.Chance(1, 6), Fault: r.Chance(1, 7)})
 			} else {
-				b.Ops = append(b.Ops, C07Op{Kind: "put", C: []int{root}}, C07Op{Kind: "commit", Root: root, Stale: r.Chance(1, 6)})
+				b.Ops = append(b.Ops, C07Op{Kind: "put", C: []int{root}}, C07Op{Kind: "commit", Root: root, Stale: r.Chance(1, 6), Fault: r.Chance(1, 7)})
 			}
 		case x < 83:
 			b.Ops = append(b.Ops, C07Op{Kind: "reopen"})
@@ -97,6 +102,29 @@ func (C07) Generate(seed uint64, tier string) *core.Scenario {
 			}
 			b.Ops = append(b.Ops, C07Op{Kind: "addtable", C: cs})
 		}
+	}
+	if r.Chance(1, 4) {
+		// directed: a commit whose references all check out fails because the memtable cannot be
+		// persisted (disk full); a commit with a genuinely dangling reference is rejected next, which
+		// drops the memtable - the first commit's chunks with it; a third commit then refers to one of
+		// those chunks without writing it again: nothing may remember it as present
+		b.Config = "local"
+		mk := func(kids ...int) int {
+			b.Chunks = append(b.Chunks, ChunkSpec{Size: r.Intn(maxSz), Fill: r.Uint64(), Kids: kids})
+			return len(b.Chunks) - 1
+		}
+		a := mk()
+		p1 := mk(a)
+		z := mk() // never put
+		x := mk(z)
+		p2 := mk(a)
+		seq := []C07Op{
+			{Kind: "put", C: []int{a, p1}}, {Kind: "commit", Root: p1, Fault: true},
+			{Kind: "put", C: []int{x}}, {Kind: "commit", Root: x},
+			{Kind: "put", C: []int{p2}}, {Kind: "commit", Root: p2},
+		}
+		at := r.Intn(len(b.Ops) + 1)
+		b.Ops = append(b.Ops[:at], append(seq, b.Ops[at:]...)...)
 	}
 	raw, _ := json.Marshal(b)
 	return &core.Scenario{Property: "C07", Harness: "C07", Seed: seed, Tier: tier, Body: raw}
@@ -274,7 +302,19 @@ func (C07) Execute(t *testing.T, sc *core.Scenario) *core.Result {
 			if dangles {
 				dangerous++
 			}
+			if op.Fault {
+				fired := false
+				sos.Fault = func(c *simos.Call) error {
+					if !fired && c.Mut && (c.Op == "write" || c.Op == "writeat") && strings.HasPrefix(filepath.Base(c.Path), "nbs_table_") {
+						fired = true
+						res.Fault("persist-enospc")
+						return syscall.ENOSPC
+					}
+					return nil
+				}
+			}
 			ok, err := st.Commit(ctx, u.Chunks[ri].Addr, expected)
+			sos.Fault = nil
 			switch {
 			case err == nil && ok:
 				if op.Stale {
